@@ -80,6 +80,21 @@ CLAIMED = {
    note='The crash is a crash of the process state, not of the disk: durability of SQLite/LMDB under power loss is outside the model. Convergence of the restarted node with its peers is C01 with this node state. Trusted: Lean kernel + standard axioms.',
    technique='Lean 4 proof (reload refines the store for all replay orders; crash = reload of any well-formed store) + model/implementation correspondence check with real restarts',
    ref='§8 C07'),
+ 'C01': dict(
+   text='Lean 4 theorem `convergence` for any number of nodes at the level of the replicated sets: for every history of operations with valid stamps inside one forgiveness period, every admissible event sequence - operations applied at any node through any source any number of times or never (local writes, delivered / duplicated / reordered / batched messages), anti-entropy exchanges against the current state of any peer with the items of the difference in any order (removals first, modifications first, interleaved) - after which every ordered pair of distinct nodes has completed an exchange following the point where each operation was applied at its origin: every node holds, for every key, exactly the LWW record of the whole history. Built on exchange_dominates (an exchange makes the replica dominate the peer), knows_run (records only grow), good_run (every node always represents what it applied). Negation witness for the pinned acceptance rule. The executable cluster model (real handlers, fetch from the peer store, tracker, purge) is tied to the real code by the correspondence run - 2-4 real nodes over loopback RPC, message loss/duplication/reordering/batching, all orders of exchange halves incl. the concurrent production path - which also evaluates the final statement (documents = LWW documents incl. bytes) on the implementation with the Lean lww as oracle.',
+   note='Proved rung of the fallback ladder: exchanges are atomic w.r.t. the peer (the fetch returns the snapshot documents); halves in any order/interleaved; late deliveries and other exchanges between exchanges. The store side (set = store after every request) is C02, document bytes are the storage contract (C17). Timers (1 s batching, repair interval) and chitchat are not modelled: events are what they trigger. Trusted: Lean kernel + standard axioms; cluster model tied by the correspondence run.',
+   technique='Lean 4 proof (representation invariant over all event histories + winner propagation) + model/implementation correspondence on real multi-node clusters with LWW oracle',
+   ref='§8 C01'),
+ 'C06': dict(
+   text='Lean 4 theorems: ack_put_holds / ack_del_holds (a replica whose handler returns Ok holds the mutation or a record of that id with a stamp at least as new - it wrote it, or will_apply refused it because something newer is recorded), distribute_spec (handle_consistency_distribution returns Ok iff every selected replica acknowledged, otherwise the error carries exactly the number of acknowledgements and of selected replicas), ok_means_stored (Ok => the issuer and every selected replica hold the document or a newer record), failure_keeps_local. Which replicas a level selects is C15.select_sound. Tied to the code by real 2-4 node clusters: every operation kind x every selected set x every failing subset, Storage::get on every node right after the call.',
+   note='Hypothesis hfresh: the write is not older than the replica purge cut-off for its origin (true of every fresh write: stamps of an origin increase, C09). No RPC timeout exists in put/del (liveness not claimed). Trusted: Lean kernel + standard axioms; Agree (C02) for every node.',
+   technique='Lean 4 proof (handler acknowledgement => stored-or-newer; ack counting) + model/implementation correspondence on real clusters with failing replicas',
+   ref='§8 C06'),
+ 'C19': dict(
+   text='The state crosses the wire through rkyv (codec assumption) - that it arrives unchanged is decided by the correspondence run: real GetState round trips over loopback, received state compared with the sender own state on every live id, tombstone, stamp and per-origin cut-off, for states from empty to 20 000 entries, many origins, both sources, purged. What is logic is proved in Lean: obs_queries / obs_diff / obs_apply / obs_equiv_forever - a state whose four maps answer look-ups like the sender is observably identical: same get, will_apply, diff, same result and again-identical successor for ANY further operation sequence. "An undecodable state is reported as an error" is FALSE of the unchanged code: known finding D12 (unchecked nested decode).',
+   note='PARTIAL: memory safety / alignment of the zero-copy access are runtime facts, observed not proved. Known finding D12 reported as KNOWN-FINDING. Trusted: Lean kernel + standard axioms; rkyv as a codec.',
+   technique='Lean 4 proof (observational equivalence from equal maps, closed under all operations) + real state-transfer round trips',
+   ref='§8 C19'),
 }
 NA_REASON = 'check not built yet (work in progress; see DESIGN.md section 8)'
 
